@@ -185,7 +185,9 @@ def handle (op : String) (f : List (List Q)) : String :=
     showOpt (((mkDisc x y mp).integralList (pairs iv)).map fun r => [[r.1, r.2]])
   | "disc_avrg_all", [x, y, mp] => showFields [[(mkDisc x y mp).avrgAll]]
   | "disc_avrg", [x, y, mp, [a, b]] => showOpt (((mkDisc x y mp).avrg a b).map fun v => [[v]])
-  | "disc_plot", [x, y, mp, [k]] => showFields [(mkDisc x y mp).plottable k.num.toNat]
+  | "disc_plot", [x, y, mp, [k]] =>
+    -- `get_plottable_data` returns the event times unchanged and the (smoothed) values
+    showFields [(mkDisc x y mp).e.map (·.1), (mkDisc x y mp).plottable k.num.toNat]
   -- single-pass routines: model answer = average / integral of the model profile
   | "isi_dist_k", [s1, s2, [ts, te, m]] =>
     if s1.isEmpty ∨ s2.isEmpty then "reject" else
